@@ -912,6 +912,9 @@ class Module(ABC):
             self.base._module_type == "cell"
             and len(self._branches_in_view) == len(self.base._branches_in_view)
         ), "This is not allowed for cells."
+        assert (
+            len(self._branches_in_view) == 1
+        ), "The number of compartments can only be set for one branch at a time."
 
         # Update all attributes that are affected by compartment structure.
         view = self.nodes.copy()
